@@ -72,7 +72,7 @@ func TestC13(t *testing.T) {
 		crashPart(t, r, tmp)
 	}
 	r.Require("payloads_checked", "restarts_from_payload", "fileclient_checks", "flush_after_lookup", "flush_after_poll", "flush_on_shutdown",
-		"fuzz_certainly_valid", "fuzz_certainly_invalid", "fuzz_grey", "cache_write_failures", "parked_write_cases", "crash_points", "io_errors_injected", "steps_with_stale_pinned_secrets", "restarts_from_real_cache_files")
+		"fuzz_certainly_valid", "fuzz_certainly_invalid", "fuzz_grey", "cache_write_failures", "parked_write_cases", "crash_points", "io_errors_injected", "steps_with_stale_pinned_secrets", "restarts_from_real_cache_files", "failed_initial_cache_writes", "quiet_polls_after_a_failed_cache_write")
 	r.Rule("histories: initial fetch, lookups, polls with/without service changes (some with failing cache writes), shutdown; after every step the last payload must be a complete document of exactly the known names with their current version+bytes, a new store started from it with a dead service must serve the same, and NewFileClient must agree on non-empty secrets. Fuzz: documents mutated around the valid format (bit flips, truncations, token splices, nulls, wrong types, duplicate/empty keys, case variants, nesting, invalid UTF-8). Crash part: every system call of FileCache.Write as kill point and as error point. Distinct = (step kind, flush expected?), fuzz (mutation, class, sources used), crash (syscall, fault)")
 }
 
@@ -142,8 +142,12 @@ func historyCase(t *testing.T, r *evid.Run, idx int, tmp string) {
 		}
 		return nil
 	}}
+	// now and then the very first write (after the initial fetch) fails: a transient fault at start-up
+	initialFails := rng.IntN(10) == 0 && expiry == 0
+	failWrites = initialFails
 	st, err := setec.NewStore(context.Background(), setec.StoreConfig{Client: svc, Secrets: append([]string(nil), declared...), AllowLookup: true, Cache: cache,
 		PollTicker: idleTicker{make(chan time.Time)}, ExpiryAge: expiry, TimeNow: func() time.Time { return time.Unix(now, 0) }, Logf: func(string, ...any) {}})
+	failWrites = false
 	if err != nil {
 		fail("newstore-fails", err.Error(), nil)
 		return
@@ -269,7 +273,18 @@ func historyCase(t *testing.T, r *evid.Run, idx int, tmp string) {
 		}
 		return true
 	}
-	if !verify("initial fetch", true, 0) {
+	if initialFails {
+		// nothing reached the cache at start-up; a poll that finds nothing new must make up for it
+		r.Count("failed_initial_cache_writes", 1)
+		r.Distinct("initial cache write fails")
+		if err := st.Refresh(context.Background()); err != nil {
+			fail("poll-fails", err.Error(), nil)
+			return
+		}
+		if !verify("quiet poll after the initial cache write failed", true, 0) {
+			return
+		}
+	} else if !verify("initial fetch", true, 0) {
 		return
 	}
 	for e, nEv := 0, 3+rng.IntN(10); e < nEv; e++ {
@@ -310,6 +325,7 @@ func historyCase(t *testing.T, r *evid.Run, idx int, tmp string) {
 				}
 			}
 			failWrites = rng.IntN(6) == 0 && expiry == 0
+			failedBefore := cache.NumFailed()
 			err := st.Refresh(context.Background())
 			if err == nil {
 				for nme := range known {
@@ -324,7 +340,11 @@ func historyCase(t *testing.T, r *evid.Run, idx int, tmp string) {
 				failWrites = false
 				trace = append(trace, "poll with failing cache write")
 				r.Distinct("poll cache-write-fails")
-				set(firstKey(known)) // something new to install, so the next poll must flush
+				if rng.IntN(2) == 0 || cache.NumFailed() == failedBefore {
+					set(firstKey(known)) // something new to install ...
+				} else {
+					r.Count("quiet_polls_after_a_failed_cache_write", 1) // ... or nothing at all: a write was refused, so the store owes the cache one all the same
+				}
 				wb = cache.NumWrites()
 				if err := st.Refresh(context.Background()); err != nil {
 					fail("poll-fails", err.Error(), nil)
